@@ -228,7 +228,14 @@ def hashctx_local_name(fn, l):
 def check_exponents(ctx, P, cfg, backend):
     for n, want, what in (("invert", curve.P - 2, "p - 2"), ("pow25523", (curve.P - 5) // 8, "(p - 5) / 8")):
         fn = P.fn("curve25519::fe::<impl curve25519::fe::%s::Fe>::%s" % (backend, n))
-        k = fexpr.exponent(fn, fn.local_expr(0))
+        k = None
+        try:
+            rr = ssa.Eval(P, fn).run()          # private helpers of the module (a shared sub-chain) are inlined
+            k = fexpr.exponent_ssa(rr, rr.ret)
+        except (KeyError, IndexError, TypeError, AttributeError, ValueError, RecursionError):
+            k = None
+        if k is None:
+            k = fexpr.exponent(fn, fn.local_expr(0))
         ctx.check(k == want, "exponent", "%s::%s[%s]" % (backend, n, cfg), "%s(x) = x^(%s)" % (n, what), "Fe::%s does not compute self^(%s): the addition chain yields exponent %s" % (n, what, ("2^255-19-%d" % (curve.P - k)) if k else None), where=fn.where(), key="exponent:%s::%s" % (backend, n))
     fn = P.fn("curve25519::fe::%s::Fe::square_repeatdly" % backend)
     lps = [l for l in rules.iter_loops(fn) if any(s[0] == "range" for s in l["sources"])]
